@@ -114,6 +114,9 @@ class HashedIterable(Generic[T]):
         """
         yield from self.values.values()
         for v in self.iterable:
+            if v.id_ in self.values:
+                # already memoised (and already yielded above), e.g. an object that is listed twice
+                continue
             self.values[v.id_] = v
             yield v
 
